@@ -28,7 +28,13 @@ def one_history(args):
     ops = g.generate(n_ops, reopen_p)
     hwd = os.path.join(wd, "h%d" % seed)
     os.makedirs(hwd, exist_ok=True)
-    h = storerig.History(hwd, ops)
+    # every third history is observed SPARSELY: no read of the whole log after every operation, no probe read behind a cut - only the
+    # reads of the history itself, the reopen comparisons and the final one. (The harness's own reads exercise the read path between any
+    # two operations; whatever the store remembers from one read to the next is only ever stale in histories without them.)
+    sparse = seed % 3 == 0
+    h = storerig.History(hwd, ops, check_every=not sparse)
+    if sparse:
+        g.features.add("sparse-observation")
     res = {"seed": seed, "n_ops": len(ops), "features": sorted(g.features)}
     try:
         v = h.run()
@@ -38,8 +44,8 @@ def one_history(args):
         return res
     res["stats"] = h.stats
     if v:
-        sops, sv, runs = storerig.shrink(hwd, ops, v, budget_s=45)
-        res["violation"] = {"signature": storerig.classify(sops, sv), "witness": {"ops": sops if len(sops) <= 60 else sops[:60], "n_ops_shrunk": len(sops), "n_ops_original": len(ops), "violation": sv, "first_violation": v, "shrink_runs": runs, "history_seed": seed, "bias": bias}}
+        sops, sv, runs = storerig.shrink(hwd, ops, v, budget_s=45, check_every=not sparse)
+        res["violation"] = {"signature": storerig.classify(sops, sv), "witness": {"ops": sops if len(sops) <= 60 else sops[:60], "n_ops_shrunk": len(sops), "n_ops_original": len(ops), "violation": sv, "first_violation": v, "shrink_runs": runs, "history_seed": seed, "bias": bias, "sparse_observation": sparse}}
     elif len(ops) < 40:
         res["sample"] = ops
     shutil.rmtree(hwd, ignore_errors=True)
